@@ -494,9 +494,6 @@ pub fn run_case(w: &World, case: &Case, seed: u64, out: &mut Out) {
                 }
             } else if case.mismatch {
                 out.h("mismatch-outcome", &format!("rejected-at-parse:{}", e));
-            } else if case.keys.iter().any(|k| k.total_depth(w) > 255) {
-                // needs BIP32 depth 256: rejection is right (what must not happen is a panic later)
-                out.h("too-deep-outcome", &format!("rejected-at-parse:{}", e));
             } else {
                 out.violation("parse-reject", case, &s, None, &format!("a valid descriptor is rejected: {}", e), "");
             }
